@@ -1561,7 +1561,9 @@ class ApplicationServiceAccessPoint(ApplicationServiceElement, ServiceAccessPoin
                 apdu._xpdu = xpdu
             except Exception as err:
                 ApplicationServiceAccessPoint._exception("confirmed request encoding error: %r", err)
-                return
+
+                # the application has to be told, nothing will come back
+                raise
 
         elif isinstance(apdu, UnconfirmedRequestPDU):
             try:
